@@ -32,9 +32,13 @@ impl Val {
                 Ok(Box::new(core::iter::empty()))
             }
             (Val::TStr(x), Val::TStr(y)) => {
-                let index = |(i, _, _)| x.get(i..i + y.len());
+                // a match has to start *and end* at a character boundary of `x`
+                let ends: Vec<usize> = x.char_indices().map(|(_, end, _)| end).collect();
+                let index = |(i, _, _)| x.get(i..i + y.len()).map(|w| (i, w));
                 let iw = x.char_indices().map_while(index).enumerate();
-                Ok(Box::new(iw.filter_map(|(i, w)| (w == **y).then_some(i))))
+                Ok(Box::new(iw.filter_map(move |(ci, (i, w))| {
+                    (w == **y && ends.binary_search(&(i + y.len())).is_ok()).then_some(ci)
+                })))
             }
             (Val::BStr(x), Val::BStr(y)) => {
                 let iw = x.windows(y.len()).enumerate();
